@@ -49,7 +49,7 @@ CHECKS = {
                  args=dict(quick=["-c10.stall=20s"], thorough=[])),
             dict(name="burst-race", run="TestC10Burst", race=True, checks=dict(quick=250, thorough=3000), shards=dict(quick=1, thorough=4),
                  args=dict(quick=["-c10.burstname=burst-race", "-c10.stall=20s"], thorough=["-c10.burstname=burst-race"])),
-            dict(name="pair", run="TestC10Pair", checks=dict(quick=60, thorough=500), shards=dict(quick=4, thorough=8),
+            dict(name="pair", run="TestC10Pair", checks=dict(quick=60, thorough=300), shards=dict(quick=4, thorough=8),
                  args=dict(quick=["-c10.pairrounds=20000", "-c10.stall=20s"], thorough=["-c10.pairrounds=40000"])),
         ],
     ),
